@@ -1,2 +1,6 @@
 -- GENERATED: root of the generated-facts library
+import TwigGen.DateFmt
+import TwigGen.MapRanges
+import TwigGen.Shared
 import TwigGen.Tokens
+import TwigGen.Writes
